@@ -50,6 +50,19 @@ type Obj struct {
 
 var objects = []Obj{{7, "x"}, {0, ""}, {-42, "\x1bjson: \"q\""}, {5, "50% done, 100%"}, {6, "%s %d %!v %"}}
 
+// objects that are no structs: strings (with control characters, quotes, non-ASCII), numbers, booleans, a slice, a map
+// (Frame.O = 100 + index)
+var otherObjects = []any{"plain text", "ctl \x01 \x7f \a \v \x00 end", "q\"uo\\te <&> \u00e9\u2028", int64(-7), int64(1234567890123), true,
+	[]int{1, 2, 3}, map[string]string{"k": "v", "a": "\x02"}, []string{}, "\x1bjson"}
+
+func anyJSON(o any) string {
+	b, err := json.Marshal(o)
+	if err != nil {
+		panic(err)
+	}
+	return string(b)
+}
+
 func objJSON(o Obj) string {
 	b, err := json.Marshal(o)
 	if err != nil {
@@ -248,6 +261,9 @@ func coqFrame(f Frame, leaf Leaf) string {
 		if f.N > 0 {
 			return "FEmbed " + coqBytes(objJSON(frameObj(f)))
 		}
+		if f.O >= 100 {
+			return "FEmbed " + coqBytes(anyJSON(otherObjects[f.O-100]))
+		}
 		return fmt.Sprintf("FEmbed O%d", f.O)
 	case "M", "J", "V":
 		return coqMulti(f, leaf)
@@ -361,9 +377,24 @@ func (r *runner) observe(err error, stage string) (res Obs) {
 			r.s.DirectViolation(r.id, "FromGRPCError returned an error that is none of the classes at "+stage, f.Error())
 		}
 	}
-	var o Obj
-	if ge.ExtractObject(err, &o) {
-		res.Ok, res.Ext = true, objJSON(o)
+	// extracted twice: untyped (whatever JSON value was embedded) and into the struct type of the object table
+	var a any
+	if ge.ExtractObject(err, &a) {
+		b, e := json.Marshal(a)
+		if e != nil {
+			r.s.DirectViolation(r.id, "the extracted object cannot be marshalled again at "+stage, e.Error())
+		}
+		res.Ok, res.Ext = true, string(b)
+		var o Obj
+		if strings.HasPrefix(res.Ext, `{"A":`) && (!ge.ExtractObject(err, &o) || objJSON(o) != res.Ext) {
+			r.s.DirectViolation(r.id, "extraction into the struct type and untyped extraction give different objects at "+stage,
+				map[string]any{"untyped": res.Ext, "typed": objJSON(o)})
+		}
+	} else {
+		var o Obj
+		if ge.ExtractObject(err, &o) {
+			res.Ok, res.Ext = true, objJSON(o)
+		}
 	}
 	return res
 }
@@ -418,7 +449,11 @@ func build(c Case) (err error, ok bool) {
 		case "U":
 			err = &opError{op: frameText(f), err: err}
 		case "E":
-			err = ge.EmbedObject(frameObj(f), err)
+			if f.N == 0 && f.O >= 100 {
+				err = ge.EmbedObject(otherObjects[f.O-100], err)
+			} else {
+				err = ge.EmbedObject(frameObj(f), err)
+			}
 		default:
 			err = buildMulti(f, err, c.Leaf)
 		}
@@ -845,6 +880,17 @@ func main() {
 			n++
 			nlong++
 			emit(Leaf{K: "S", C: (n * 5) % len(classes)}, longFrames(sh, size, n))
+		}
+	}
+	// 4c. objects that are no structs (strings with control characters, numbers, booleans, slices, maps), alone and under wraps
+	for oi := range otherObjects {
+		for si := 0; si < 3; si++ {
+			n++
+			nlong++
+			e := Frame{K: "E", O: 100 + oi}
+			w := func(k int) Frame { return Frame{K: "W", T: texts[markerFree[(n+k)%len(markerFree)]]} }
+			fr := [][]Frame{{e}, {w(0), e, w(1)}, {w(2), w(3), e}}[si]
+			emit(Leaf{K: "S", C: (n * 7) % len(classes)}, fr)
 		}
 	}
 	s.Extra["long_cases"] = nlong
